@@ -44,6 +44,8 @@ LiveConfs == Reg(0..4, 1..3, {-1, 2}, {<<0, FALSE>>, <<2, TRUE>>}, {TRUE}, {"non
 S13Confs == {[c EXCEPT !.part = TRUE] : c \in Reg(0..6, {3}, {-1}, {<<2, TRUE>>}, {TRUE}, {"none"}, {"else"}, {"query"})}
 \* a declared digest that does not validate is ignored (finding C05-2)
 BadDigConfs == Reg({2}, {1}, {-1}, {<<0, FALSE>>}, {TRUE}, {"baddig"}, {"else"}, {"query"}) \cup Oci({2}, {"baddig"})
+\* the refused single request upload left the whole blob in the session (finding C05-3)
+KeptAllConfs == Reg({3}, {2}, {-1}, {<<0, FALSE>>}, {TRUE}, {"right"}, {"else"}, {"query"})
 \* the anonymous mount short cut with a descriptor the stream does not match
 MountConfs == Reg({2}, {1}, {-1}, {<<0, FALSE>>}, {TRUE}, {"wrongdig", "sizeplus"}, {"else", "repo"}, {"query"})
 =============================================================================
